@@ -19,6 +19,7 @@ META = {
 }
 META["explanation"] += " " + 'FX-sink follows the helper methods of the renderer class that the {var:} renderer calls (transitively): they may write to the stream only through the escaper.'
 META["explanation"] += " " + '(PR-passthru) abstract interpretation of the & arm over (units known at the cursor, interval of the remaining length): with each entity at the cursor every feasible path skips it whole and writes nothing, and every path that writes nothing has established all units of an entity inside the remaining length; this replaces the earlier shape-matching look-ahead clause. (CFG-switch) additionally the constant Config::AutoEscapeHTML as evaluated by the front end in the build with QENTEM_AUTO_ESCAPE_HTML=0 and in the default build. (NARROW-unit) the escaper dispatches on whole code units.'
+META["explanation"] += " " + '(PR-flush, shared with C08) the same flush-first typestate over the loop of EscapeHTMLSpecialChars.'
 
 ENTITIES = {ord("&"): ("HTMLAnd", "&amp;"), ord("<"): ("HTMLLess", "&lt;"), ord(">"): ("HTMLGreater", "&gt;"),
             ord('"'): ("HTMLQuote", "&quot;"), ord("'"): ("HTMLSingleQuote", "&apos;")}
@@ -288,6 +289,8 @@ def run(ctx):
     # all character widths: the escaper dispatches on whole code units (a narrowed unit makes U+0426 look like '&')
     from rules.common import rule_narrow_units, rule_sign_unit
     rules.append(rule_narrow_units(ctx, m, ["StringUtils.hpp"]))
+    from rules.common import rule_flush_first
+    rules.append(rule_flush_first(ctx, m, "Qentem::StringUtils::EscapeHTMLSpecialChars"))
     return rules
 
 
